@@ -25,6 +25,7 @@ import PyomaVerif.Ops.C17Table
 import PyomaVerif.Ops.C08
 import PyomaVerif.Ops.MsGather
 import PyomaVerif.Ops.C18Whole
+import PyomaVerif.Ops.C20Facts
 /-! Line-protocol driver: one JSON object per line in, one JSON value per line out. -/
 open Lean PV PV.Codec
 
@@ -37,6 +38,7 @@ def allOps : List (String × (Json → Except String Json)) :=
   ++ PV.Ops.C08.ops
   ++ PV.Ops.MsGather.ops
   ++ PV.Ops.C18Whole.ops
+  ++ PV.Ops.C20Facts.ops
 
 def handle (line : String) : String :=
   match Json.parse line with
